@@ -26,7 +26,7 @@
 //   `Inverter for BoxedMontyFormInverter`, `PrecomputeInverter for BoxedMontyParams / Odd<BoxedUint>`, `PrecomputeInverterWithAdjuster`,
 //   `MontyMultiplier::mul_assign`; BoxedSafeGcdInverter::new; `Deref for Odd<T>`, `PartialEq/PartialOrd<Odd<BoxedUint>> for BoxedUint`, `NonZero<BoxedUint>::widen`.
 // stub (ASSUMED): `From<&BoxedMontyParams> for BoxedMontyMultiplier` (one-line call of `new`; a trait-impl method cannot carry the `requires`),
-//   BoxedUint::widen (LIMITATION 1 of l8_boxed_methods.rs; BoxedUint::{one, max, square} are bodies),
+//   (BoxedUint::widen is a body now: rewrite S2, re-borrow through a named temporary; BoxedUint::{one, max, square} are bodies),
 //   (lincomb_boxed_monty_form is no longer assumed: PROVED in l8_boxed_lincomb.rs).
 // Bernstein-Yang inverter: BoxedSafeGcdInverter::new is a body here; `Inverter for BoxedSafeGcdInverter::invert` is PROVED in l8_boxed_safegcd_top.rs
 //   (trait `Inverter` re-exported from there); the model m()/adj()/nl() is defined over the concrete one of l8_boxed_safegcd.rs (`sm`/`sadj`/`swf`).
@@ -598,21 +598,38 @@ pub fn square(&self) -> (ret__: Self)
     }
 }
 //@@ end
-//@@ fn src/uint/boxed.rs | impl BoxedUint | widen | stub | props C15 C11
+// S2 (re-borrow through a named temporary): Verus leaves a range IndexMut taken directly on a `Box<[Limb]>` place unconstrained
+//@@ subst ^(\s*)ret\.limbs\[\.\.self\.nlimbs\(\)\]\.copy_from_slice\(&self\.limbs\);\s*$ => \1{ let ret_limbs__: &mut [Limb] = &mut ret.limbs; ret_limbs__[..self.nlimbs()].copy_from_slice(&self.limbs); }
+//@@ fn src/uint/boxed.rs | impl BoxedUint | widen | body | props C15 C11
 impl BoxedUint {
-#[verifier::external_body]
 pub fn widen(&self, at_least_bits_precision: u32) -> (ret__: BoxedUint)
 //@+
-    // ASSUMED (`ret.limbs[..n].copy_from_slice(..)`: range IndexMut through a `Box<[Limb]>` place, LIMITATION 1 of l8_boxed_methods.rs):
     // zero extension; `assert!(at_least_bits_precision >= self.bits_precision())` is the precondition
     requires self.limbs@.len() < 0x400_0000, at_least_bits_precision as int >= 64 * self.nl()
     ensures ret__.nl() == nlimbs_for(at_least_bits_precision), ret__.v() == self.v()
 //@-
 {
-    unimplemented!()
-}
+        assert!(at_least_bits_precision >= self.bits_precision());
+        let mut ret = BoxedUint::zero_with_precision(at_least_bits_precision);
+//@+
+    let ghost r0 = ret.limbs@; let ghost n = self.limbs@.len(); let ghost m = ret.limbs@.len();
+    proof { assert(n <= m); }
+//@-
+        { let ret_limbs__: &mut [Limb] = &mut ret.limbs; ret_limbs__[..self.nlimbs()].copy_from_slice(&self.limbs); }
+//@+
+    proof {
+        assert(ret.limbs@.len() == m);
+        assert(ret.limbs@.subrange(0, n as int) =~= self.limbs@);
+        assert forall|k: int| n <= k < m implies ret.limbs@[k].0 == 0 by { assert(ret.limbs@[k] == r0[k]); }
+        lemma_val_ext(ret.limbs@, self.limbs@, n);
+        lemma_val_hi_zero(ret.limbs@, n, m);
+    }
+//@-
+        ret
+    }
 }
 //@@ end
+//@@ subst-clear
 //@@ fn src/uint/boxed.rs | impl NonZero<BoxedUint> | widen | body | props C15 C11
 impl NonZero<BoxedUint> {
 pub fn widen(&self, bits_precision: u32) -> (ret__: Self)
